@@ -57,6 +57,7 @@ type Script struct {
 	L             int        `json:"l"`
 	Dgram         bool       `json:"dgram"`
 	DialTimeoutMs int        `json:"dial_timeout_ms"` // PipelineOpts.DialTimeout (0 = default)
+	HoldClose     bool       `json:"hold_close"`      // Close() of every connection is a held rendezvous (ReleaseClose)
 	Steps         []Step     `json:"steps"`
 	Random        *RandomCfg `json:"random,omitempty"`
 }
@@ -222,7 +223,13 @@ func (r *run) dialRetG(k int, ok bool, gated bool) bool {
 		r.markFailed(k)
 		return op.Complete(nil, simnet.ErrRefused)
 	}
-	conn := simnet.NewConn(r.rec, simnet.Options{Name: fmt.Sprintf("k%d", k), Datagram: r.sc.Dgram, Annotate: r.annotate(k)})
+	opts := simnet.Options{Name: fmt.Sprintf("k%d", k), Datagram: r.sc.Dgram, Annotate: r.annotate(k)}
+	if r.sc.HoldClose {
+		opts.Manual = func(op *simnet.Op) bool {
+			return op.Kind == simnet.OpRead || op.Kind == simnet.OpWrite || op.Kind == simnet.OpClose
+		}
+	}
+	conn := simnet.NewConn(r.rec, opts)
 	r.conns[k] = conn
 	dc := transport.NewDnsConn(transport.TraditionalDnsConnOpts{WithLengthHeader: !r.sc.Dgram, MaxConcurrentQuery: r.sc.L,
 		IdleTimeout: 300 * time.Second}, conn)
@@ -429,6 +436,37 @@ func (r *run) steer() (bool, string) {
 			}
 			r.sent[st.C] = sentQ{w.conn, append([]byte(nil), p...)}
 			w.op.Complete(nil)
+		case "Kill": // the peer closes connection k: its pending Read returns EOF
+			c := r.conns[st.K]
+			if c == nil || !c.EOF(stepWait) {
+				return fail("no pending Read")
+			}
+			for cc, sq := range r.sent { // replies to queries sent on the dead connection will never come
+				if sq.conn == c {
+					delete(r.sent, cc)
+				}
+			}
+		case "WaitClose": // the code has called Close() on connection k (held)
+			c := r.conns[st.K]
+			if c == nil || c.Wait(simnet.IsKind(simnet.OpClose), stepWait) == nil {
+				return fail("Close() not seen")
+			}
+		case "ReleaseClose":
+			if c := r.conns[st.K]; c != nil {
+				if op := c.Find(simnet.IsKind(simnet.OpClose)); op != nil {
+					op.Complete(nil)
+				}
+			}
+		case "WaitDialOpt": // bounded observation: does dial k show up within n ms?
+			deadline := time.Now().Add(time.Duration(st.N) * time.Millisecond)
+			for time.Now().Before(deadline) {
+				r.syncDials()
+				if r.dials[st.K] != nil {
+					break
+				}
+				r.collect()
+				time.Sleep(time.Millisecond)
+			}
 		case "Sleep":
 			time.Sleep(time.Duration(st.N) * time.Millisecond)
 		case "WaitWrites":
@@ -571,7 +609,7 @@ func runScript(idx int, sc *Script, seed int64) (res Result) {
 			cl.cancel()
 		}
 	}
-	r.pt.Close()
+	go r.pt.Close() // may block behind a held Close() of a connection: the loop below completes those
 	deadline := time.Now().Add(2 * time.Second)
 	for time.Now().Before(deadline) {
 		busy := false
